@@ -152,6 +152,20 @@ pub struct Oracle {
     pub cfg_clean_keep: (u16, u32),
     /// length of the most recent CONNECT offered to a transport (0 = none yet)
     pub last_connect_len: usize,
+    /// what an outside observer saw, per class (twin comparisons)
+    pub obs: Obs,
+}
+
+/// Observable behaviour of one execution, split into the classes whose relative order is fixed.
+#[derive(Clone, Debug, Default, PartialEq, Eq)]
+pub struct Obs {
+    /// CONNECT, PUBLISH, SUBSCRIBE, UNSUBSCRIBE, DISCONNECT completely written, in order
+    pub requests: Vec<Vec<u8>>,
+    /// PUBACK / PUBREC / PUBCOMP completely written
+    pub acks: Vec<Vec<u8>>,
+    /// PUBREL completely written
+    pub pubrels: Vec<Vec<u8>>,
+    pub delivered: Vec<InMsg>,
 }
 
 impl Oracle {
@@ -176,6 +190,7 @@ impl Oracle {
             rx_size,
             cfg_clean_keep: (0, 0),
             last_connect_len: 0,
+            obs: Obs::default(),
         }
     }
 
@@ -818,8 +833,14 @@ impl Oracle {
     }
 
     /// The last byte of a packet was accepted by the transport: the broker has it.
-    fn packet_completed(&mut self, c: usize, pkt: &CPacket, _raw: &[u8]) {
+    fn packet_completed(&mut self, c: usize, pkt: &CPacket, raw: &[u8]) {
         self.conns[c].packets += 1;
+        match pkt {
+            CPacket::Ack(a) if a.kind == AckKind::PubRel => self.obs.pubrels.push(raw.to_vec()),
+            CPacket::Ack(_) => self.obs.acks.push(raw.to_vec()),
+            CPacket::PingReq | CPacket::Auth { .. } => {}
+            _ => self.obs.requests.push(raw.to_vec()),
+        }
         match pkt {
             CPacket::Disconnect { .. } => self.conns[c].disconnect_done = true,
             CPacket::Publish(p) if p.qos > 0 => {
@@ -1166,6 +1187,7 @@ impl Oracle {
     /// A message was handed to the application.
     pub fn delivered(&mut self, msg: InMsg) {
         self.delivered += 1;
+        self.obs.delivered.push(msg.clone());
         if self.expect_deliver.is_empty() {
             self.flag(
                 "C04",
